@@ -19,6 +19,11 @@ package lexer
 //@ func (*lexer).skipSpace
 //@   props C09
 //@   requires l != nil && 0 <= l.Idx
+//@   requires #cursor l.Line == lineAt(l.input, l.Idx) && l.Col == colAt(l.input, l.Idx)
+//@   loop 1 invariant l.Line == lineAt(l.input, l.Idx) && l.Col == colAt(l.input, l.Idx)
+//@   loop 1 unfold lineAt(l.input, l.Idx + 1)
+//@   loop 1 unfold colAt(l.input, l.Idx + 1)
+//@   ensures #cursor l.Line == lineAt(l.input, l.Idx) && l.Col == colAt(l.input, l.Idx)
 //@   nopanic
 //@   modifies l.Idx, l.Line, l.Col
 //@   loop 1 invariant old(l.Idx) <= l.Idx && l.IdxEnd == old(l.IdxEnd) && (old(l.Idx) <= len(l.input) ==> l.Idx <= len(l.input))
@@ -32,7 +37,15 @@ package lexer
 //@   props C09
 //@   uses dyncalls-pure
 //@   requires l != nil && 0 <= l.Idx && l.Idx <= len(l.input)
+//@   requires #cursor l.Line == lineAt(l.input, l.Idx) && l.Col == colAt(l.input, l.Idx)
 //@   modifies l.Idx, l.Line, l.Col
+//@   loop 1 invariant l.Line == lineAt(l.input, l.Idx) && l.Col == colAt(l.input, l.Idx) && p.Line == l.Line && p.Col == l.Col
+//@   loop 2 invariant l.Line == lineAt(l.input, l.Idx) && l.Col == colAt(l.input, l.Idx) && p.Line == lineAt(l.input, p.Idx) && p.Col == colAt(l.input, p.Idx)
+//@   loop 2 invariant forall(j, 0, len(matched), matched[j] == l.input[p.Idx + j])
+//@   loop 2 unfold lineAt(l.input, l.Idx + 1)
+//@   loop 2 unfold colAt(l.input, l.Idx + 1)
+//@   ensures #cursor l.Line == lineAt(l.input, l.Idx) && l.Col == colAt(l.input, l.Idx)
+//@   ensures #linecol result != EOF ==> result.Line == lineAt(l.input, result.Idx) && result.Col == colAt(l.input, result.Idx)
 //@   loop 1 invariant l.Idx == p.Idx && l.IdxEnd == old(l.IdxEnd) && old(l.Idx) <= p.Idx && p.Idx < len(l.input) && !isSpace(l.input[p.Idx])
 //@   loop 1 invariant forall(i, old(l.Idx), p.Idx, isSpace(l.input[i]))
 //@   loop 2 invariant old(l.Idx) <= p.Idx && p.Idx < len(l.input) && !isSpace(l.input[p.Idx]) && forall(i, old(l.Idx), p.Idx, isSpace(l.input[i]))
